@@ -24,6 +24,8 @@ import Gotree.Lemmas.C13PxForms
 import Gotree.Lemmas.C13NsSpec
 import Gotree.Lemmas.C13C01Num
 import Gotree.Lemmas.C13Sameline
+import Gotree.Lemmas.C13Flags
+import Gotree.Lemmas.C13Trailing
 
 namespace Gotree.C13
 open Gotree
@@ -1235,5 +1237,132 @@ example : readMultiNewick exCodec (unlines ([[exTree, exTree], [exTree]].map fun
       rcases hg with h | h <;> subst h
       · exact ⟨by simp, by intro t ht; simp at ht; subst ht; decide +kernel⟩
       · exact ⟨by simp, by intro t ht; simp at ht; subst ht; decide +kernel⟩)
+
+/- ## white space after the last tree (round 7) -/
+
+/-- blank-only lines after the last line of ANY multi-tree Newick file change nothing: the reader delivers
+    exactly the records of the file without them (no spurious "unterminated tree" record — the test is
+    `strings.TrimSpace(line) != ""` — and no record lost).  `ls` are the lines of the file (any content:
+    good, broken or unterminated trees), `tl` lines of blanks and tabs. -/
+theorem multi_trailing_blank_lines_ignored (C : NewickCodec) (ls tl : List Txt) (hls : ∀ l ∈ ls, oneLine l)
+    (htl : ∀ l ∈ tl, ∀ c ∈ l, isBlank c = true) :
+    readMultiNewick C (unlines (ls ++ tl)) = readMultiNewick C (unlines ls) :=
+  readMultiNewick_trailing_blank_lines C ls tl hls htl
+
+/-- the same for blanks after the last line end, without a line end of their own -/
+theorem multi_trailing_blanks_nonl_ignored (C : NewickCodec) (ls : List Txt) (b : Txt) (hls : ∀ l ∈ ls, oneLine l)
+    (hb : ∀ c ∈ b, isBlank c = true) :
+    readMultiNewick C (unlines ls ++ b) = readMultiNewick C (unlines ls) :=
+  readMultiNewick_trailing_blanks_nonl C ls b hls hb
+
+/-- multi_trailing_blank_lines_ignored: the hypotheses hold for the file `exText` followed by the lines
+    " \t" and "" -/
+example : readMultiNewick exCodec (unlines ([exText] ++ [" \t".toList, []])) = readMultiNewick exCodec (unlines [exText]) :=
+  multi_trailing_blank_lines_ignored exCodec [exText] [" \t".toList, []]
+    (by intro l hl; simp at hl; subst hl; exact ⟨by decide, by decide⟩)
+    (by intro l hl; simp at hl; rcases hl with rfl | rfl <;> decide)
+
+/- ## the regenerated tables and the format flag (round 7)
+
+   `Gotree/Gen/C13Tables.lean` is rewritten from the working tree on every run by harness/c13/extract.go
+   (go/parser): the facts about the source that the hand-written model assumes.  The theorems below
+   re-decide them; when one no longer checks, the run still looks for a concrete failing input (the generator
+   draws its key-word labels and flag values from the same extraction). -/
+
+/-- `Nex.keywordOf` IS the switch of `scanIdent` as it stands in the source: for every literal, the model's
+    key word is the token of the first row of the regenerated table that matches its upper-case form, and no
+    key word (IDENT) when no row matches.  A word added to, removed from or re-targeted in the lexer breaks
+    this theorem. -/
+theorem lexer_keyword_table_check (s : String) :
+    Nex.keywordOf s = Nex.keywordOfTable Gen.C13.lexerKeywords s :=
+  Nex.keywordOf_table s
+
+/-- `Nex.isIdent` / `Nex.isWs` are `isIdent` / `isWhitespace` of nexus_token.go: the characters compared there -/
+theorem lexer_chars_table_check (c : Char) :
+    Nex.isIdent c = Nex.identOfTable Gen.C13.identStops Gen.C13.whitespaceChars c ∧
+    Nex.isWs c = Nex.wsOfTable Gen.C13.whitespaceChars c :=
+  ⟨Nex.isIdent_table c, Nex.isWs_table c⟩
+
+/-- the rest of the lexer's shape: default token IDENT, the switch is on `strings.ToUpper`, `isIdent` excludes
+    white space, and the punctuation switch of `Scan` is the one `Nex.scanGo` follows.  (The base and size given
+    to `ParseInt` are in the table for information only: IDENT and NUMERIC tokens are names alike, so another
+    base changes no observation of this property.) -/
+theorem lexer_shape_table_check :
+    Gen.C13.lexerDefault = "IDENT" ∧ Gen.C13.lexerSwitchOnToUpper = true ∧
+    Gen.C13.identExcludesWhitespace = true ∧ Gen.C13.lexerPunct = assumedPunct := by decide
+
+/-- the xml tags `Px.decode` looks for are the struct tags of io/phyloxml, the order name / scientific name /
+    code of `Px.Clade.label` is the if-chain of cladeToTree, and the support is read under `len(c.Clades) > 0` -/
+theorem phyloxml_tags_table_check :
+    Gen.C13.xmlTags = assumedXmlTags ∧ Gen.C13.cladeNameOrder = assumedNameOrder ∧
+    Gen.C13.supportGuard = assumedSupportGuard := by decide
+
+/-- `readMulti` / `readFirst` dispatch as `ReadMultiTrees` / `ReadTreeReader` do: four constants in iota
+    order, each reaching the parser of its package -/
+theorem reader_dispatch_table_check :
+    Gen.C13.formatConsts = assumedFormatConsts ∧ Gen.C13.multiReaders = assumedMultiReaders ∧
+    Gen.C13.firstReaders = assumedFirstReaders := by decide
+
+/-- `formatOfFlag` IS the switch on `rootInputFormat` of cmd/root.go, default included, for every string -/
+theorem format_flag_table_check (s : String) :
+    (formatOfFlag s).constName = tableLookup Gen.C13.formatFlags Gen.C13.formatDefault s :=
+  formatOfFlag_table s
+
+/-- `reformatGlue` calls the writer the command calls; all three commands read with the multi-tree reader;
+    `--translate` (false by default) is WriteNexus's second argument; the flag defaults of `gotree reformat` -/
+theorem reformat_glue_table_check :
+    Gen.C13.reformatGlue = assumedReformat ∧ Gen.C13.reformatFlags = assumedReformatFlags := by decide
+
+/-- what the flag selects: each of the three other readers by exactly its word; EVERY other string — another
+    letter case, an abbreviation, the empty string — silently selects the Newick reader -/
+theorem format_flag_selects (s : String) :
+    (formatOfFlag s = .nexus ↔ s = "nexus") ∧ (formatOfFlag s = .phyloxml ↔ s = "phyloxml") ∧
+    (formatOfFlag s = .nextstrain ↔ s = "nextstrain") ∧
+    (s ≠ "nexus" → s ≠ "phyloxml" → s ≠ "nextstrain" → formatOfFlag s = .newick) :=
+  ⟨formatOfFlag_nexus s, formatOfFlag_phyloxml s, formatOfFlag_nextstrain s, formatOfFlag_other s⟩
+
+/-- `gotree reformat newick --format <s>` with a value that is none of the three other words runs the Newick
+    multi-tree reader on the file whatever the file holds (a Nexus file given with `--format NEXUS` is parsed as
+    Newick): the command is the Newick reader followed by the glue -/
+theorem reformat_flag_unknown_reads_newick (E : Env) (s : String) (text : Txt) (x : Option Px.Xml) (n : Option Ns.Node)
+    (h1 : s ≠ "nexus") (h2 : s ≠ "phyloxml") (h3 : s ≠ "nextstrain") :
+    reformatNewickFlag E s text x n = some (reformatGlue E .newick false (readMultiNewick E.C text)) := by
+  simp [reformatNewickFlag, formatOfFlag_other s h1 h2 h3, docForFlag, readMulti]
+
+/-- with the documented word the command is that format's multi-tree reader followed by the glue -/
+theorem reformat_flag_documented (E : Env) (text : Txt) (x : Option Px.Xml) (n : Option Ns.Node) :
+    reformatNewickFlag E "nexus" text x n = (readMulti E (.nexus text)).map (reformatGlue E .newick false) ∧
+    reformatNewickFlag E "newick" text x n = (readMulti E (.newick text)).map (reformatGlue E .newick false) ∧
+    reformatNewickFlag E "phyloxml" text x n = (readMulti E (.phyloxml x)).map (reformatGlue E .newick false) ∧
+    reformatNewickFlag E "nextstrain" text x n = (readMulti E (.nextstrain n)).map (reformatGlue E .newick false) :=
+  ⟨rfl, rfl, rfl, rfl⟩
+
+/-- the whole command on a Newick file whose trees each end their line, for every flag value that reaches
+    the Newick reader (the documented "newick" as well as NEXUS, nwk, the empty string …): exit status 0 and
+    every tree written back, in order — composition of the flag switch, `multi_delivers_all` and the glue -/
+theorem reformat_flag_newick_file (E : Env) (L : NewickLaws E.C) (ts : List T) (hne : ts ≠ [])
+    (hw : ∀ t ∈ ts, L.wf t = true) (s : String) (x : Option Px.Xml) (n : Option Ns.Node)
+    (h1 : s ≠ "nexus") (h2 : s ≠ "phyloxml") (h3 : s ≠ "nextstrain") :
+    reformatNewickFlag E s (unlines (ts.map E.C.write)) x n =
+      some (true, Px.joinT (fun t => E.C.write t ++ ['\n']) (ts.map L.norm)) := by
+  rw [reformat_flag_unknown_reads_newick E s _ x n h1 h2 h3, multi_delivers_all E.C L ts hne hw, reformatGlue_good]
+
+/-- observation (a user error, not counted as a defect: an error IS reported): the Nexus document gotree
+    itself writes for two trees, given back with `--format NEXUS`, is read as Newick and the command fails
+    without writing anything; with `--format nexus` it succeeds (corpus/C13-format-flag.txt) -/
+theorem reformat_flag_wrong_case_fails :
+    reformatNewickFlag ⟨exCodec, decCodec⟩ "NEXUS" (writeNexus exCodec false [(0, exTree), (1, exTree)]) none none = some (false, []) ∧
+    (reformatNewickFlag ⟨exCodec, decCodec⟩ "nexus" (writeNexus exCodec false [(0, exTree), (1, exTree)]) none none).map (·.1)
+      = some true := by
+  constructor <;> decide +kernel
+
+/-- reformat_flag_newick_file: the hypotheses hold for two copies of `exTree` and the value "nwk" -/
+example : reformatNewickFlag ⟨exCodec, decCodec⟩ "nwk" (unlines ([exTree, exTree].map exCodec.write)) none none =
+    some (true, Px.joinT (fun t => exCodec.write t ++ ['\n']) ([exTree, exTree].map exLaws.toNewickLaws.norm)) :=
+  reformat_flag_newick_file ⟨exCodec, decCodec⟩ exLaws.toNewickLaws [exTree, exTree] (by simp)
+    (by intro t ht; simp at ht; subst ht; decide +kernel) "nwk" none none (by decide) (by decide) (by decide)
+
+/-- format_flag_selects / reformat_flag_unknown_reads_newick: the hypotheses hold for "NEXUS" -/
+example : formatOfFlag "NEXUS" = .newick ∧ formatOfFlag "nexus" = .nexus ∧ formatOfFlag "" = .newick := by decide
 
 end Gotree.C13
